@@ -63,6 +63,15 @@ func CorpusTexts() []string {
 	for _, e := range extras {
 		add(e)
 	}
+	// sibling histories: an earlier labelled loop / nested switch / function,
+	// then a statement whose legality depends on the parser's scope state
+	out = append(out,
+		"a : while ( c ) ; b : { while ( c ) { x ( ) ; break b ; } }",
+		"switch ( a ) { case 1 : switch ( b ) { case 2 : break ; } break ; case 3 : x ( ) ; }",
+		"L : for ( ; ; ) { M : while ( c ) { continue L ; } continue L ; }",
+		"h = function ( ) { L : while ( c ) continue L ; return 1 ; } ; M : { x ( ) ; break M ; }",
+		"for ( ; ; ) { switch ( a ) { default : continue ; } break ; }",
+	)
 	return out
 }
 
